@@ -1,9 +1,9 @@
 SPECIFICATION Spec
 CONSTANTS Chains = {"neo"}
-          Ns = {1, 2, 3, 4, 5, 6, 7}
-          LightNs = {}
+          Ns = {1, 2, 3, 4, 5, 6}
+          LightNs = {7}
           ExhN = 3
-          ExhL = 4
+          ExhL = 3
           EmitOn = TRUE
 INVARIANT PropC24
 INVARIANT NeoWalkIsIncreasing
